@@ -69,6 +69,7 @@ fn main() {
         ("replay", "rtrfanout") => rtrfanout::replay(rest),
         ("replay", "rtaval") => rtaval::replay(rest),
         ("replay", "pubpoint") => pubpoint::replay(rest),
+        ("drive", "pubpoint") => pubpoint::drive(rest),
         ("cycle", "rtaval") => rtaval::cycle(rest),
         ("drive", "rtaval") => rtaval::drive(rest),
         ("drive", "decoders") => decoders::drive(rest),
